@@ -214,11 +214,13 @@ pub fn gen(rng: &mut Rng, size: usize) -> Value {
     if rng.chance(1, 12) {
         // free-running threads on a large text: indexing takes long enough for the threads to overlap
         let n = *rng.pick(&[3000i64, 40000, 300001]);
-        let nthr = 3 + rng.below(2) as usize;
-        let calls: Vec<Vec<Value>> = (0..nthr).map(|t| match t % 3 {
+        let nthr = 4 + rng.below(3) as usize;
+        let calls: Vec<Vec<Value>> = (0..nthr).map(|t| match t % 4 {
             0 => vec![json!({"op": "line_count"}), json!({"op": "get_line", "i": n})],
             1 => vec![json!({"op": "get_line", "i": n + 5}), json!({"op": "line_count"})],
-            _ => vec![json!({"op": "get_line", "i": n - 1}), json!({"op": "get_line", "i": 0})],
+            2 => vec![json!({"op": "get_line", "i": n - 1}), json!({"op": "get_line", "i": 0})],
+            // requests for the FIRST lines made while the other threads are still indexing the whole text
+            _ => vec![json!({"op": "get_line", "i": 0}), json!({"op": "get_line", "i": 1}), json!({"op": "get_line", "i": 0}), json!({"op": "get_line", "i": 2})],
         }).collect();
         let sep: Vec<u32> = rng.pick(&[vec![10u32], vec![13], vec![13, 10]]).clone();
         let unit: Vec<u32> = rng.pick(&[vec![97u32], vec![97, 98, 99], vec![]]).clone();
